@@ -326,3 +326,923 @@ Lemma action_table_fast_path wm ins has_key tp cm cd :
 Proof.
   intros _ H. apply action_table_agrees. unfold table_domain. rewrite H. reflexivity.
 Qed.
+
+(* ================================================================== MERGE: the per-row fold *)
+Definition st_ins (s : mstate) (rows : list row) : mstate :=
+  {| s_del := s_del s; s_seen := s_seen s; s_upd := s_upd s; s_insr := s_insr s ++ rows;
+     s_nins := (s_nins s + N.of_nat (length rows))%N; s_nupd := s_nupd s; s_ndel := s_ndel s |}.
+Definition st_del (s : mstate) (ids : list addr) : mstate :=
+  {| s_del := rev ids ++ s_del s; s_seen := s_seen s; s_upd := s_upd s; s_insr := s_insr s;
+     s_nins := s_nins s; s_nupd := s_nupd s; s_ndel := (s_ndel s + N.of_nat (length ids))%N |}.
+Definition st_upd (s : mstate) (us : list (addr * row)) : mstate :=
+  {| s_del := rev (map fst us) ++ s_del s; s_seen := rev (map fst us) ++ s_seen s; s_upd := s_upd s ++ us; s_insr := s_insr s;
+     s_nins := s_nins s; s_nupd := (s_nupd s + N.of_nat (length us))%N; s_ndel := s_ndel s |}.
+
+Lemma mstate_eta (s : mstate) :
+  s = {| s_del := s_del s; s_seen := s_seen s; s_upd := s_upd s; s_insr := s_insr s;
+         s_nins := s_nins s; s_nupd := s_nupd s; s_ndel := s_ndel s |}.
+Proof. destruct s; reflexivity. Qed.
+
+Lemma st_ins_nil s : st_ins s [] = s.
+Proof. unfold st_ins. cbn [length N.of_nat]. rewrite app_nil_r, N.add_0_r. symmetry. apply mstate_eta. Qed.
+Lemma st_del_nil s : st_del s [] = s.
+Proof. unfold st_del. cbn [length N.of_nat rev app]. rewrite N.add_0_r. symmetry. apply mstate_eta. Qed.
+Lemma st_upd_nil s : st_upd s [] = s.
+Proof. unfold st_upd. cbn [length N.of_nat rev app map]. rewrite app_nil_r, N.add_0_r. symmetry. apply mstate_eta. Qed.
+
+Lemma fold_err st jr e : fold_left (step_row st) jr (inr e) = inr e.
+Proof. induction jr as [|j jr IH]; [reflexivity|]. cbn [fold_left step_row]. exact IH. Qed.
+
+(* rows whose action is Nothing can be dropped *)
+Definition effective (st : msettings) (j : jrow) : bool := negb (action_eqb (row_action st j) ANothing).
+
+Lemma fold_skip st jr acc :
+  fold_left (step_row st) jr acc = fold_left (step_row st) (filter (effective st) jr) acc.
+Proof.
+  revert acc; induction jr as [|j jr IH]; intro acc; [reflexivity|].
+  cbn [filter fold_left]. unfold effective at 1. destruct (row_action st j) eqn:E; cbn [action_eqb negb fold_left]; try apply IH.
+  rewrite <- IH. f_equal. destruct acc as [s|e]; cbn [step_row]; [rewrite E|]; reflexivity.
+Qed.
+
+Lemma fold_ins st jr : (forall j, In j jr -> row_action st j = AInsert) ->
+  forall s, fold_left (step_row st) jr (inl s) = inl (st_ins s (map js jr)).
+Proof.
+  induction jr as [|j jr IH]; intros H s.
+  - cbn [fold_left map]. rewrite st_ins_nil. reflexivity.
+  - cbn [fold_left step_row]. rewrite (H j (or_introl eq_refl)). rewrite IH by (intros; apply H; right; assumption).
+    f_equal. unfold st_ins. cbn [s_del s_seen s_upd s_insr s_nins s_nupd s_ndel map length].
+    rewrite <- app_assoc. cbn [app]. f_equal. lia.
+Qed.
+
+Lemma fold_del st jr : (forall j, In j jr -> row_action st j = ADelete /\ exists a, jid j = Some a) ->
+  forall s, fold_left (step_row st) jr (inl s) =
+            inl (st_del s (flat_map (fun j => match jid j with Some a => [a] | None => [] end) jr)).
+Proof.
+  induction jr as [|j jr IH]; intros H s.
+  - cbn [fold_left flat_map]. rewrite st_del_nil. reflexivity.
+  - destruct (H j (or_introl eq_refl)) as [Ha [a Hj]].
+    cbn [fold_left step_row flat_map]. rewrite Ha, Hj. rewrite IH by (intros; apply H; right; assumption).
+    f_equal. unfold st_del. cbn [s_del s_seen s_upd s_insr s_nins s_nupd s_ndel app length rev].
+    rewrite <- app_assoc. cbn [app]. f_equal. lia.
+Qed.
+
+Lemma fold_fail st jr : (forall j, In j jr -> row_action st j = AFail) ->
+  forall s, fold_left (step_row st) jr (inl s) = match jr with [] => inl s | _ => inr EFail end.
+Proof.
+  destruct jr as [|j jr]; intros H s; [reflexivity|].
+  cbn [fold_left step_row]. rewrite (H j (or_introl eq_refl)). apply fold_err.
+Qed.
+
+(* duplicate detection as the code does it: against the set of ids seen so far *)
+Fixpoint dupfree (seen ids : list addr) : bool :=
+  match ids with
+  | [] => true
+  | a :: rest => negb (mem_addr a seen) && dupfree (a :: seen) rest
+  end.
+
+Lemma fold_upd st jr : (forall j, In j jr -> row_action st j = AUpdateAll /\ exists a, jid j = Some a) ->
+  forall s, fold_left (step_row st) jr (inl s) =
+            let us := flat_map (fun j => match jid j with Some a => [(a, js j)] | None => [] end) jr in
+            if dupfree (s_seen s) (map fst us) then inl (st_upd s us) else inr EDup.
+Proof.
+  induction jr as [|j jr IH]; intros H s.
+  - cbn [fold_left flat_map map dupfree]. rewrite st_upd_nil. reflexivity.
+  - destruct (H j (or_introl eq_refl)) as [Ha [a Hj]].
+    cbn [fold_left step_row flat_map]. rewrite Ha, Hj. cbn [app map fst dupfree].
+    destruct (mem_addr a (s_seen s)) eqn:M; cbn [negb andb].
+    + apply fold_err.
+    + rewrite IH by (intros; apply H; right; assumption).
+      cbn zeta. cbn [s_seen].
+      destruct (dupfree (a :: s_seen s) _); [|reflexivity].
+      f_equal. unfold st_upd. cbn [s_del s_seen s_upd s_insr s_nins s_nupd s_ndel app length rev map fst].
+      rewrite <- !app_assoc. cbn [app]. f_equal. lia.
+Qed.
+
+Lemma addr_eqb_eq a b : addr_eqb a b = true <-> a = b.
+Proof.
+  destruct a as [a1 a2], b as [b1 b2]. unfold addr_eqb. cbn [fst snd]. rewrite andb_true_iff, !Nat.eqb_eq.
+  split; [intros [-> ->]; reflexivity|intro E; inversion E; auto].
+Qed.
+
+Lemma mem_addr_in a l : mem_addr a l = true <-> In a l.
+Proof.
+  unfold mem_addr. rewrite existsb_exists. split.
+  - intros [x [Hx E]]. apply addr_eqb_eq in E. subst. exact Hx.
+  - intro H. exists a. split; [exact H|]. apply addr_eqb_eq. reflexivity.
+Qed.
+
+Lemma mem_addr_app a l1 l2 : mem_addr a (l1 ++ l2) = mem_addr a l1 || mem_addr a l2.
+Proof. unfold mem_addr. apply existsb_app. Qed.
+
+Lemma mem_addr_rev a l : mem_addr a (rev l) = mem_addr a l.
+Proof.
+  destruct (mem_addr a l) eqn:E.
+  - apply mem_addr_in. apply in_rev. rewrite rev_involutive. apply mem_addr_in. exact E.
+  - destruct (mem_addr a (rev l)) eqn:F; [|reflexivity]. apply mem_addr_in in F. apply in_rev in F.
+    apply mem_addr_in in F. congruence.
+Qed.
+
+Lemma dupfree_spec seen ids : dupfree seen ids = true <-> NoDup ids /\ (forall a, In a ids -> ~ In a seen).
+Proof.
+  revert seen; induction ids as [|a ids IH]; intro seen; cbn [dupfree].
+  - split; [intros _; split; [constructor|intros a []]|reflexivity].
+  - rewrite andb_true_iff, negb_true_iff, IH. split.
+    + intros [M [ND F]]. split.
+      * constructor; [|exact ND]. intro Hin. apply (F a Hin). left. reflexivity.
+      * intros b [<-|Hb] Hs.
+        -- apply mem_addr_in in Hs. congruence.
+        -- apply (F b Hb). right. exact Hs.
+    + intros [ND F]. inversion ND as [|? ? Hn ND']. subst. split; [|split].
+      * destruct (mem_addr a seen) eqn:M; [|reflexivity]. apply mem_addr_in in M. exfalso. apply (F a (or_introl eq_refl) M).
+      * exact ND'.
+      * intros b Hb [<-|Hs]; [exact (Hn Hb)|]. apply (F b (or_intror Hb) Hs).
+Qed.
+
+(* ================================================================== MERGE: keys and per-row actions *)
+Definition mkB (it : addr * row) (s : row) : jrow := {| js := s; jt := snd it; jid := Some (fst it) |}.
+Definition mkS (st : msettings) (s : row) : jrow := {| js := s; jt := nulls (m_ncols st); jid := None |}.
+Definition mkT (st : msettings) (it : addr * row) : jrow :=
+  {| js := nulls (length (m_scols st)); jt := snd it; jid := Some (fst it) |}.
+
+Lemma join_rows_eq st ne k tgt src : join_rows st ne k tgt src =
+  flat_map (fun it => map (mkB it) (filter (fun s => key_match st ne s (snd it)) src)) tgt
+  ++ (if keep_src k then map (mkS st) (filter (fun s => negb (existsb (fun it => key_match st ne s (snd it)) tgt)) src) else [])
+  ++ (if keep_tgt k then map (mkT st) (filter (fun it => negb (existsb (fun s => key_match st ne s (snd it)) src)) tgt) else []).
+Proof. reflexivity. Qed.
+
+Definition skeys (st : msettings) (s : row) : list cell := map (src_get (m_scols st) s) (m_on st).
+Definition tkeys (st : msettings) (t : row) : list cell := map (fun k => nth k t None) (m_on st).
+
+Lemma nth_nulls k n : nth k (nulls n) None = None.
+Proof. unfold nulls. revert k; induction n as [|n IH]; intros [|k]; cbn [repeat nth]; auto. Qed.
+
+Lemma src_get_nulls scols n k : src_get scols (nulls n) k = None.
+Proof. unfold src_get. destruct (index_of k scols 0); [apply nth_nulls|reflexivity]. Qed.
+
+Lemma skeys_nulls st n : existsb is_some (skeys st (nulls n)) = false.
+Proof.
+  unfold skeys. induction (m_on st) as [|k l IH]; cbn [map existsb]; [reflexivity|].
+  rewrite src_get_nulls. exact IH.
+Qed.
+
+Lemma tkeys_nulls st n : existsb is_some (tkeys st (nulls n)) = false.
+Proof.
+  unfold tkeys. induction (m_on st) as [|k l IH]; cbn [map existsb]; [reflexivity|].
+  rewrite nth_nulls. exact IH.
+Qed.
+
+Lemma sql_eq_some a b : sql_eq a b = true -> is_some a = true /\ is_some b = true.
+Proof. destruct a, b; cbn; intro H; try discriminate; auto. Qed.
+
+Lemma sql_on_some st s t : sql_on st s t = true ->
+  forallb is_some (skeys st s) = true /\ forallb is_some (tkeys st t) = true.
+Proof.
+  unfold sql_on, skeys, tkeys. induction (m_on st) as [|k l IH]; cbn [forallb map]; [auto|].
+  intro H. apply andb_true_iff in H as [H1 H2]. apply sql_eq_some in H1 as [A B]. destruct (IH H2) as [C D].
+  rewrite A, B, C, D. auto.
+Qed.
+
+Lemma forallb_existsb_ne {A} (p : A -> bool) (l : list A) : l <> [] -> forallb p l = true -> existsb p l = true.
+Proof. destruct l as [|x l]; [congruence|]. cbn [forallb existsb]. intros _ H. apply andb_true_iff in H as [H _]. rewrite H. reflexivity. Qed.
+
+Lemma key_eq_false a b : key_eq false a b = sql_eq a b.
+Proof. destruct a, b; reflexivity. Qed.
+
+Lemma key_eq_of_sql ne a b : sql_eq a b = true -> key_eq ne a b = true.
+Proof. destruct a, b; cbn; intro H; try discriminate; exact H. Qed.
+
+Lemma key_eq_some ne a b : is_some a = true -> key_eq ne a b = sql_eq a b.
+Proof. destruct a, b; cbn; intro H; try discriminate; reflexivity. Qed.
+
+Lemma forallb_ext' {A} (f g : A -> bool) (l : list A) : (forall x, f x = g x) -> forallb f l = forallb g l.
+Proof. intro H. induction l as [|x l IH]; cbn [forallb]; [reflexivity|]. rewrite H, IH. reflexivity. Qed.
+
+Lemma key_match_false st s t : key_match st false s t = sql_on st s t.
+Proof. unfold key_match, sql_on. apply forallb_ext'. intro k. apply key_eq_false. Qed.
+
+Lemma key_match_of_sql st ne s t : sql_on st s t = true -> key_match st ne s t = true.
+Proof.
+  unfold key_match, sql_on. induction (m_on st) as [|k l IH]; cbn [forallb]; [auto|].
+  intro H. apply andb_true_iff in H as [H1 H2]. rewrite (key_eq_of_sql ne _ _ H1), IH by exact H2. reflexivity.
+Qed.
+
+Lemma key_match_nonnull st ne s t : forallb is_some (skeys st s) = true -> key_match st ne s t = sql_on st s t.
+Proof.
+  unfold key_match, sql_on, skeys. induction (m_on st) as [|k l IH]; cbn [forallb map]; [auto|].
+  intro H. apply andb_true_iff in H as [H1 H2]. rewrite (key_eq_some ne _ _ H1), IH by exact H2. reflexivity.
+Qed.
+
+(* a NULL = NULL match of the indexed join (one key column): both key cells are NULL *)
+Lemma key_match_null_pair st s t k : m_on st = [k] -> key_match st true s t = true -> sql_on st s t = false ->
+  existsb is_some (skeys st s) = false /\ existsb is_some (tkeys st t) = false.
+Proof.
+  unfold key_match, sql_on, skeys, tkeys. intros ->. cbn [forallb map existsb]. rewrite !andb_true_r, !orb_false_r.
+  destruct (src_get (m_scols st) s k), (nth k t None); cbn; intros A B; try discriminate; try congruence; auto.
+Qed.
+
+Lemma skeys_exists st s : m_on st <> [] -> forallb is_some (skeys st s) = true -> existsb is_some (skeys st s) = true.
+Proof. intros Hon H. apply forallb_existsb_ne; [|exact H]. unfold skeys. intro E. apply map_eq_nil in E. contradiction. Qed.
+Lemma tkeys_exists st t : m_on st <> [] -> forallb is_some (tkeys st t) = true -> existsb is_some (tkeys st t) = true.
+Proof. intros Hon H. apply forallb_existsb_ne; [|exact H]. unfold tkeys. intro E. apply map_eq_nil in E. contradiction. Qed.
+
+Definition wm_act (st : msettings) (s t : row) : action :=
+  match m_wm st with
+  | WmFail => AFail
+  | WmDoNothing => ANothing
+  | WmUpdateAll => AUpdateAll
+  | WmUpdateIf c => if is_tt (eval_b (widen st s ++ t) c) then AUpdateAll else ANothing
+  end.
+Definition nsdel (st : msettings) (t : row) : bool :=
+  match m_ns st with NsKeep => false | NsDelete => true | NsDeleteIf c => is_tt (eval_b t c) end.
+
+Lemma fast_path_facts st : fast_path st = true ->
+  m_ns st = NsKeep /\ m_wm st <> WmDoNothing /\ m_indexed st = false /\ full_schema st = true.
+Proof.
+  unfold fast_path. intro H. apply andb_true_iff in H as [H Hns]. apply andb_true_iff in H as [H Hf].
+  apply andb_true_iff in H as [Hwm Hi]. apply negb_true_iff in Hi.
+  repeat split; auto.
+  - destruct (m_ns st); try discriminate; reflexivity.
+  - intro E. rewrite E in Hwm. discriminate.
+Qed.
+
+Lemma fast_no_null_eq st : fast_path st = true -> join_null_eq st = false.
+Proof. intro H. unfold join_null_eq, uses_index. rewrite H. reflexivity. Qed.
+
+Lemma act_both st it s :
+  m_on st <> [] ->
+  (join_null_eq st = true -> exists k, m_on st = [k]) ->
+  Known_C12_fail_off_fast_path st = false ->
+  key_match st (join_null_eq st) s (snd it) = true ->
+  row_action st (mkB it s) = if sql_on st s (snd it) then wm_act st s (snd it) else ANothing.
+Proof.
+  intros Hon Hsingle K3 KM. unfold row_action. destruct (fast_path st) eqn:FP.
+  - destruct (fast_path_facts st FP) as [Hns [Hwm _]].
+    rewrite (fast_no_null_eq st FP), key_match_false in KM. rewrite KM.
+    destruct (sql_on_some st s (snd it) KM) as [Hs _].
+    unfold fast_action, src_keys, cond_m, wm_act. cbn [js jt jid mkB is_some]. fold (skeys st s). rewrite Hs, Hns.
+    destruct (m_wm st) as [|c| |]; try congruence; destruct (m_ins st); try reflexivity;
+      destruct (eval_b (widen st s ++ snd it) c); reflexivity.
+  - unfold merger_action, src_keys, tgt_keys. cbn [js jt mkB]. fold (skeys st s). fold (tkeys st (snd it)).
+    destruct (sql_on st s (snd it)) eqn:SQ.
+    + destruct (sql_on_some st s (snd it) SQ) as [Hs Ht].
+      rewrite (skeys_exists st s Hon Hs), (tkeys_exists st (snd it) Hon Ht). cbn [andb].
+      unfold wm_act, cond_m. cbn [js jt mkB].
+      destruct (m_wm st) eqn:W; try reflexivity.
+      unfold Known_C12_fail_off_fast_path in K3. rewrite W, FP in K3. discriminate.
+    + destruct (join_null_eq st) eqn:NE.
+      * destruct (Hsingle eq_refl) as [k Hk].
+        destruct (key_match_null_pair st s (snd it) k Hk KM SQ) as [A B]. rewrite A, B. reflexivity.
+      * rewrite key_match_false in KM. congruence.
+Qed.
+
+Lemma act_src st s :
+  m_on st <> [] ->
+  (m_ins st = true -> forallb is_some (skeys st s) = true) ->
+  row_action st (mkS st s) = if m_ins st then AInsert else ANothing.
+Proof.
+  intros Hon Hk. unfold row_action. destruct (fast_path st) eqn:FP.
+  - destruct (fast_path_facts st FP) as [Hns [Hwm _]].
+    unfold fast_action, src_keys. cbn [js jt jid mkS is_some]. fold (skeys st s). rewrite Hns.
+    destruct (m_ins st) eqn:I.
+    + rewrite (Hk eq_refl). reflexivity.
+    + destruct (forallb is_some (skeys st s)), (m_wm st); try congruence; try reflexivity;
+        destruct (cond_m st _); reflexivity.
+  - unfold merger_action, src_keys, tgt_keys. cbn [js jt mkS]. fold (skeys st s). fold (tkeys st (nulls (m_ncols st))).
+    rewrite tkeys_nulls. rewrite !andb_false_r. cbn [negb]. rewrite andb_true_r.
+    destruct (m_ins st) eqn:I.
+    + rewrite (skeys_exists st s Hon (Hk eq_refl)). reflexivity.
+    + destruct (existsb is_some (skeys st s)); reflexivity.
+Qed.
+
+Lemma act_tgt st it :
+  fast_path st = false ->
+  (is_keep (m_ns st) = false -> existsb is_some (tkeys st (snd it)) = true) ->
+  row_action st (mkT st it) = if nsdel st (snd it) then ADelete else ANothing.
+Proof.
+  intros FP Hk. unfold row_action. rewrite FP.
+  unfold merger_action, src_keys, tgt_keys. cbn [js jt mkT]. fold (skeys st (nulls (length (m_scols st)))). fold (tkeys st (snd it)).
+  rewrite skeys_nulls. cbn [andb negb]. unfold nsdel, cond_d. cbn [jt mkT].
+  destruct (existsb is_some (tkeys st (snd it))) eqn:R.
+  - destruct (m_ns st); reflexivity.
+  - destruct (m_ns st); try reflexivity; specialize (Hk eq_refl); discriminate.
+Qed.
+
+(* ================================================================== MERGE: the joined stream, row by row *)
+Lemma filter_map_comm {A B} (f : A -> B) (p : B -> bool) (l : list A) :
+  filter p (map f l) = map f (filter (fun x => p (f x)) l).
+Proof. induction l as [|x l IH]; cbn [map filter]; [reflexivity|]. destruct (p (f x)); cbn [map]; rewrite IH; reflexivity. Qed.
+
+Lemma filter_filter {A} (p q : A -> bool) (l : list A) : filter p (filter q l) = filter (fun x => q x && p x) l.
+Proof.
+  induction l as [|x l IH]; cbn [filter]; [reflexivity|].
+  destruct (q x); cbn [filter andb]; [destruct (p x)|]; rewrite IH; reflexivity.
+Qed.
+
+Lemma filter_flat_map {A B} (p : B -> bool) (f : A -> list B) (l : list A) :
+  filter p (flat_map f l) = flat_map (fun x => filter p (f x)) l.
+Proof. induction l as [|x l IH]; cbn [flat_map]; [reflexivity|]. rewrite filter_app, IH. reflexivity. Qed.
+
+Lemma filter_all_true {A} (p : A -> bool) (l : list A) : (forall x, In x l -> p x = true) -> filter p l = l.
+Proof.
+  induction l as [|x l IH]; cbn [filter]; intro H; [reflexivity|].
+  rewrite (H x (or_introl eq_refl)), IH; [reflexivity|]. intros y Hy. apply H. right. exact Hy.
+Qed.
+
+Lemma filter_all_false {A} (p : A -> bool) (l : list A) : (forall x, In x l -> p x = false) -> filter p l = [].
+Proof.
+  induction l as [|x l IH]; cbn [filter]; intro H; [reflexivity|].
+  rewrite (H x (or_introl eq_refl)). apply IH. intros y Hy. apply H. right. exact Hy.
+Qed.
+
+Lemma negb_existsb_nil {A} (p : A -> bool) (l : list A) : negb (existsb p l) = is_nil (filter p l).
+Proof. induction l as [|x l IH]; cbn [existsb filter]; [reflexivity|]. destruct (p x); cbn; [reflexivity|exact IH]. Qed.
+
+Lemma existsb_map {A B} (f : A -> B) (p : B -> bool) (l : list A) : existsb p (map f l) = existsb (fun x => p (f x)) l.
+Proof. induction l as [|x l IH]; cbn [map existsb]; [reflexivity|]. rewrite IH. reflexivity. Qed.
+
+Lemma existsb_ext_in {A} (p q : A -> bool) (l : list A) : (forall x, In x l -> p x = q x) -> existsb p l = existsb q l.
+Proof.
+  induction l as [|x l IH]; cbn [existsb]; intro H; [reflexivity|].
+  rewrite (H x (or_introl eq_refl)), IH; [reflexivity|]. intros y Hy. apply H. right. exact Hy.
+Qed.
+
+Lemma existsb_none_false {A} (f : A -> cell) (l : list A) :
+  existsb (fun k => is_none (f k)) l = false -> forallb is_some (map f l) = true.
+Proof.
+  induction l as [|x l IH]; cbn [existsb map forallb]; intro H; [reflexivity|].
+  apply orb_false_iff in H as [H1 H2]. rewrite IH by exact H2. destruct (f x); [reflexivity|discriminate].
+Qed.
+
+Lemma forallb_none_false {A} (f : A -> cell) (l : list A) :
+  forallb (fun k => is_none (f k)) l = false -> existsb is_some (map f l) = true.
+Proof.
+  induction l as [|x l IH]; cbn [existsb map forallb]; intro H; [discriminate|].
+  destruct (f x); cbn [is_none is_some andb orb] in *; [reflexivity|]. apply IH. exact H.
+Qed.
+
+Definition fires (st : msettings) (s t : row) : bool := negb (action_eqb (wm_act st s t) ANothing).
+Definition matches (st : msettings) (src : list row) (t : row) : list row := filter (fun s => sql_on st s t) src.
+Definition hits (st : msettings) (src : list row) (t : row) : list row := filter (fun s => sql_on st s t && fires st s t) src.
+Definition inserted (st : msettings) (tgt : itable) (src : list row) : list row :=
+  if m_ins st then filter (fun s => negb (existsb (fun t => sql_on st s t) (map snd tgt))) src else [].
+Definition dropped (st : msettings) (tgt : itable) (src : list row) : itable :=
+  filter (fun it => is_nil (matches st src (snd it)) && nsdel st (snd it)) tgt.
+Definition updates (st : msettings) (tgt : itable) (src : list row) : list (addr * row) :=
+  flat_map (fun it => map (fun s => (fst it, s)) (hits st src (snd it))) tgt.
+
+Section MergeRows.
+  Variable st : msettings.
+  Variable tgt : itable.
+  Variable src : list row.
+  Hypothesis Hon : m_on st <> [].
+  Hypothesis Hsingle : join_null_eq st = true -> exists k, m_on st = [k].
+  Hypothesis Hsup : supported st = true.
+  Hypothesis K1 : Known_C12_null_key_source_rows_skipped st src = false.
+  Hypothesis K2 : Known_C12_null_key_target_rows_kept st (map snd tgt) = false.
+  Hypothesis K3 : Known_C12_fail_off_fast_path st = false.
+
+  Let ne := join_null_eq st.
+  Let kd := join_kind st.
+
+  Lemma src_keys_nonnull : m_ins st = true -> forall s, In s src -> forallb is_some (skeys st s) = true.
+  Proof.
+    intros I s Hs. unfold Known_C12_null_key_source_rows_skipped in K1. rewrite I in K1. cbn [andb] in K1.
+    unfold skeys. apply existsb_none_false.
+    destruct (existsb (fun k => is_none (src_get (m_scols st) s k)) (m_on st)) eqn:E; [|reflexivity].
+    assert (T : existsb (fun s => existsb (fun k => is_none (src_get (m_scols st) s k)) (m_on st)) src = true).
+    { apply existsb_exists. exists s. auto. }
+    congruence.
+  Qed.
+
+  Lemma tgt_keys_nonnull : is_keep (m_ns st) = false -> forall it, In it tgt -> existsb is_some (tkeys st (snd it)) = true.
+  Proof.
+    intros NK it Hit. unfold Known_C12_null_key_target_rows_kept in K2.
+    assert (N : match m_ns st with NsKeep => false | _ => true end = true) by (destruct (m_ns st); [discriminate| |]; reflexivity).
+    rewrite N in K2. cbn [andb] in K2. unfold tkeys. apply forallb_none_false.
+    destruct (forallb (fun k => is_none (nth k (snd it) None)) (m_on st)) eqn:E; [|reflexivity].
+    assert (T : existsb (fun t => forallb (fun k => is_none (nth k t None)) (m_on st)) (map snd tgt) = true).
+    { apply existsb_exists. exists (snd it). split; [apply in_map; exact Hit|exact E]. }
+    congruence.
+  Qed.
+
+  Lemma ins_keeps_src : m_ins st = true -> keep_src kd = true.
+  Proof.
+    intro I. unfold kd, join_kind. rewrite I. destruct (fast_path st); [reflexivity|]. destruct (full_schema st); reflexivity.
+  Qed.
+
+  Lemma keep_tgt_legacy : keep_tgt kd = true -> fast_path st = false.
+  Proof.
+    unfold kd, join_kind. destruct (fast_path st); [|reflexivity]. destruct (m_ins st); discriminate.
+  Qed.
+
+  Lemma delete_means_full_join : is_keep (m_ns st) = false -> fast_path st = false /\ kd = JFull /\ ne = false.
+  Proof.
+    intro NK.
+    assert (FP : fast_path st = false).
+    { destruct (fast_path st) eqn:F; [|reflexivity]. destruct (fast_path_facts st F) as [E _]. rewrite E in NK. discriminate. }
+    split; [exact FP|]. unfold supported in Hsup.
+    assert (Fu : full_schema st = true).
+    { destruct (full_schema st); [reflexivity|]. cbn [orb] in Hsup. destruct (m_ns st); discriminate. }
+    split.
+    - unfold kd, join_kind. rewrite FP, Fu. reflexivity.
+    - unfold ne, join_null_eq, uses_index. destruct (m_ns st); try discriminate; rewrite !andb_false_r; reflexivity.
+  Qed.
+
+  (* the three segments of the joined stream after dropping the rows that do nothing *)
+  Lemma eff_both :
+    filter (effective st) (flat_map (fun it => map (mkB it) (filter (fun s => key_match st ne s (snd it)) src)) tgt)
+    = flat_map (fun it => map (mkB it) (hits st src (snd it))) tgt.
+  Proof.
+    rewrite filter_flat_map. apply flat_map_ext_in. intros it _.
+    rewrite filter_map_comm, filter_filter. f_equal. unfold hits. apply filter_ext_in'. intros s _.
+    destruct (key_match st ne s (snd it)) eqn:KM; cbn [andb].
+    - unfold effective. rewrite (act_both st it s Hon Hsingle K3 KM).
+      destruct (sql_on st s (snd it)); [reflexivity|reflexivity].
+    - destruct (sql_on st s (snd it)) eqn:SQ; [|reflexivity].
+      rewrite (key_match_of_sql st ne s (snd it) SQ) in KM. discriminate.
+  Qed.
+
+  Lemma eff_src :
+    filter (effective st)
+      (if keep_src kd then map (mkS st) (filter (fun s => negb (existsb (fun it => key_match st ne s (snd it)) tgt)) src) else [])
+    = map (mkS st) (inserted st tgt src).
+  Proof.
+    unfold inserted. destruct (m_ins st) eqn:I.
+    - rewrite (ins_keeps_src I). rewrite filter_all_true.
+      + f_equal. apply filter_ext_in'. intros s Hs. f_equal. rewrite existsb_map. apply existsb_ext_in. intros it _.
+        apply key_match_nonnull. apply (src_keys_nonnull I s Hs).
+      + intros j Hj. apply in_map_iff in Hj as [s [<- Hs]]. apply filter_In in Hs as [Hs _].
+        unfold effective. rewrite (act_src st s Hon (fun _ => src_keys_nonnull I s Hs)), I. reflexivity.
+    - destruct (keep_src kd); [|reflexivity]. apply filter_all_false.
+      intros j Hj. apply in_map_iff in Hj as [s [<- Hs]].
+      unfold effective. rewrite (act_src st s Hon); [rewrite I; reflexivity|]. rewrite I. discriminate.
+  Qed.
+
+  Lemma eff_tgt :
+    filter (effective st)
+      (if keep_tgt kd then map (mkT st) (filter (fun it => negb (existsb (fun s => key_match st ne s (snd it)) src)) tgt) else [])
+    = map (mkT st) (dropped st tgt src).
+  Proof.
+    unfold dropped. destruct (is_keep (m_ns st)) eqn:NK.
+    - assert (E : forall t, nsdel st t = false) by (intro t; unfold nsdel; destruct (m_ns st); [reflexivity|discriminate|discriminate]).
+      rewrite (filter_all_false (fun it => is_nil (matches st src (snd it)) && nsdel st (snd it))) by (intros; rewrite E; apply andb_false_r).
+      destruct (keep_tgt kd) eqn:KT; [|reflexivity]. apply filter_all_false.
+      intros j Hj. apply in_map_iff in Hj as [it [<- Hit]].
+      unfold effective. rewrite (act_tgt st it (keep_tgt_legacy KT)); [rewrite E; reflexivity|]. rewrite NK. discriminate.
+    - destruct (delete_means_full_join NK) as [FP [KD NE]]. rewrite KD. cbn [keep_tgt].
+      rewrite filter_map_comm, filter_filter. f_equal. apply filter_ext_in'. intros it Hit.
+      unfold effective. rewrite (act_tgt st it FP (fun _ => tgt_keys_nonnull NK it Hit)).
+      rewrite negb_existsb_nil. unfold matches. rewrite NE.
+      rewrite (filter_ext _ _ (fun s => key_match_false st s (snd it))).
+      destruct (nsdel st (snd it)); reflexivity.
+  Qed.
+
+  Lemma eff_join :
+    filter (effective st) (join_rows st ne kd tgt src)
+    = flat_map (fun it => map (mkB it) (hits st src (snd it))) tgt
+      ++ map (mkS st) (inserted st tgt src) ++ map (mkT st) (dropped st tgt src).
+  Proof. rewrite join_rows_eq, !filter_app, eff_both, eff_src, eff_tgt. reflexivity. Qed.
+
+  (* actions of the rows that are left *)
+  Lemma hit_action it s : In s (hits st src (snd it)) -> row_action st (mkB it s) = wm_act st s (snd it).
+  Proof.
+    intro H. apply filter_In in H as [_ H]. apply andb_true_iff in H as [SQ _].
+    rewrite (act_both st it s Hon Hsingle K3 (key_match_of_sql st ne s (snd it) SQ)), SQ. reflexivity.
+  Qed.
+
+  Lemma ins_action s : In s (inserted st tgt src) -> row_action st (mkS st s) = AInsert.
+  Proof.
+    unfold inserted. destruct (m_ins st) eqn:I; [|intros []]. intro H. apply filter_In in H as [Hs _].
+    rewrite (act_src st s Hon (fun _ => src_keys_nonnull I s Hs)), I. reflexivity.
+  Qed.
+
+  Lemma drop_action it : In it (dropped st tgt src) -> row_action st (mkT st it) = ADelete.
+  Proof.
+    intro H. apply filter_In in H as [Hit H]. apply andb_true_iff in H as [_ D].
+    assert (NK : is_keep (m_ns st) = false).
+    { unfold nsdel in D. destruct (m_ns st); [discriminate|reflexivity|reflexivity]. }
+    destruct (delete_means_full_join NK) as [FP _].
+    rewrite (act_tgt st it FP (fun _ => tgt_keys_nonnull NK it Hit)), D. reflexivity.
+  Qed.
+End MergeRows.
+
+(* ================================================================== MERGE: what the fold computes *)
+Lemma is_nil_flat_map_map {A B C} (f : A -> B -> C) (g : A -> list B) (l : list A) :
+  is_nil (flat_map (fun x => map (f x) (g x)) l) = forallb (fun x => is_nil (g x)) l.
+Proof.
+  induction l as [|x l IH]; cbn [flat_map forallb]; [reflexivity|].
+  destruct (g x) as [|b bs]; cbn [map app is_nil andb]; [exact IH|reflexivity].
+Qed.
+
+Lemma is_nil_true {A} (l : list A) : is_nil l = true -> l = [].
+Proof. destruct l; [reflexivity|discriminate]. Qed.
+
+Lemma ids_of_both (H : addr * row -> list row) (l : itable) :
+  flat_map (fun j => match jid j with Some a => [(a, js j)] | None => [] end) (flat_map (fun it => map (mkB it) (H it)) l)
+  = flat_map (fun it => map (fun s => (fst it, s)) (H it)) l.
+Proof.
+  induction l as [|it l IH]; cbn [flat_map]; [reflexivity|]. rewrite flat_map_app, IH. f_equal.
+  induction (H it) as [|s ss IHs]; cbn [map flat_map app]; [reflexivity|]. rewrite IHs. reflexivity.
+Qed.
+
+Lemma ids_of_tgt st (l : itable) :
+  flat_map (fun j => match jid j with Some a => [a] | None => [] end) (map (mkT st) l) = map fst l.
+Proof. induction l as [|it l IH]; cbn [map flat_map app]; [reflexivity|]. rewrite IH. reflexivity. Qed.
+
+Lemma js_of_src st (l : list row) : map js (map (mkS st) l) = l.
+Proof. induction l as [|s l IH]; cbn [map]; [reflexivity|]. rewrite IH. reflexivity. Qed.
+
+Lemma fires_not_fail st s t : m_wm st <> WmFail -> fires st s t = true -> wm_act st s t = AUpdateAll.
+Proof.
+  unfold fires, wm_act. destruct (m_wm st) as [|c| |]; try congruence; intros _ H; try reflexivity.
+  - destruct (is_tt (eval_b (widen st s ++ t) c)); [reflexivity|discriminate].
+  - discriminate.
+Qed.
+
+Lemma fires_fail st s t : m_wm st = WmFail -> wm_act st s t = AFail /\ fires st s t = true.
+Proof. unfold fires, wm_act. intros ->. split; reflexivity. Qed.
+
+Definition final_state (st : msettings) (tgt : itable) (src : list row) : mstate :=
+  st_del (st_ins (st_upd mstate0 (updates st tgt src)) (inserted st tgt src)) (map fst (dropped st tgt src)).
+
+Section MergeRun.
+  Variable st : msettings.
+  Variable tgt : itable.
+  Variable src : list row.
+  Hypothesis Hon : m_on st <> [].
+  Hypothesis Hsingle : join_null_eq st = true -> exists k, m_on st = [k].
+  Hypothesis Hsup : supported st = true.
+  Hypothesis K1 : Known_C12_null_key_source_rows_skipped st src = false.
+  Hypothesis K2 : Known_C12_null_key_target_rows_kept st (map snd tgt) = false.
+  Hypothesis K3 : Known_C12_fail_off_fast_path st = false.
+
+  Lemma run_rows_split :
+    run_rows st (join_rows st (join_null_eq st) (join_kind st) tgt src)
+    = fold_left (step_row st) (map (mkT st) (dropped st tgt src))
+        (fold_left (step_row st) (map (mkS st) (inserted st tgt src))
+           (fold_left (step_row st) (flat_map (fun it => map (mkB it) (hits st src (snd it))) tgt) (inl mstate0))).
+  Proof.
+    unfold run_rows. rewrite fold_skip, (eff_join st tgt src Hon Hsingle Hsup K1 K2 K3), !fold_left_app. reflexivity.
+  Qed.
+
+  Lemma fold_inserted s :
+    fold_left (step_row st) (map (mkS st) (inserted st tgt src)) (inl s) = inl (st_ins s (inserted st tgt src)).
+  Proof.
+    rewrite fold_ins, js_of_src; [reflexivity|].
+    intros j Hj. apply in_map_iff in Hj as [r [<- Hr]]. eapply ins_action; eassumption.
+  Qed.
+
+  Lemma fold_dropped s :
+    fold_left (step_row st) (map (mkT st) (dropped st tgt src)) (inl s) = inl (st_del s (map fst (dropped st tgt src))).
+  Proof.
+    rewrite fold_del, ids_of_tgt; [reflexivity|].
+    intros j Hj. apply in_map_iff in Hj as [it [<- Hit]]. split; [|eexists; reflexivity].
+    eapply drop_action; eassumption.
+  Qed.
+
+  Lemma run_rows_not_fail : m_wm st <> WmFail ->
+    run_rows st (join_rows st (join_null_eq st) (join_kind st) tgt src)
+    = if dupfree [] (map fst (updates st tgt src)) then inl (final_state st tgt src) else inr EDup.
+  Proof.
+    intro NF. rewrite run_rows_split. rewrite fold_upd.
+    - cbn zeta. rewrite ids_of_both. fold (updates st tgt src). cbn [s_seen mstate0].
+      destruct (dupfree [] (map fst (updates st tgt src))).
+      + rewrite fold_inserted, fold_dropped. reflexivity.
+      + rewrite !fold_err. reflexivity.
+    - intros j Hj. apply in_flat_map in Hj as [it [_ Hj]]. apply in_map_iff in Hj as [s [<- Hs]].
+      split; [|eexists; reflexivity].
+      rewrite (hit_action st src Hon Hsingle K3 it s Hs). apply fires_not_fail; [exact NF|].
+      apply filter_In in Hs as [_ Hs]. apply andb_true_iff in Hs as [_ F]. exact F.
+  Qed.
+
+  Lemma run_rows_fail : m_wm st = WmFail ->
+    run_rows st (join_rows st (join_null_eq st) (join_kind st) tgt src)
+    = if forallb (fun it => is_nil (hits st src (snd it))) tgt then inl (final_state st tgt src) else inr EFail.
+  Proof.
+    intro F. rewrite run_rows_split. rewrite fold_fail.
+    - destruct (forallb (fun it => is_nil (hits st src (snd it))) tgt) eqn:AN.
+      + assert (E1 : flat_map (fun it => map (mkB it) (hits st src (snd it))) tgt = []).
+        { apply is_nil_true. rewrite (is_nil_flat_map_map (fun it => mkB it)). exact AN. }
+        assert (E2 : updates st tgt src = []).
+        { unfold updates. apply is_nil_true. rewrite (is_nil_flat_map_map (fun it s => (fst it, s))). exact AN. }
+        rewrite E1, fold_inserted, fold_dropped. unfold final_state. rewrite E2, st_upd_nil. reflexivity.
+      + assert (E1 : is_nil (flat_map (fun it => map (mkB it) (hits st src (snd it))) tgt) = false).
+        { rewrite (is_nil_flat_map_map (fun it => mkB it)). exact AN. }
+        destruct (flat_map (fun it => map (mkB it) (hits st src (snd it))) tgt); [discriminate E1|].
+        rewrite !fold_err. reflexivity.
+    - intros j Hj. apply in_flat_map in Hj as [it [_ Hj]]. apply in_map_iff in Hj as [s [<- Hs]].
+      rewrite (hit_action st src Hon Hsingle K3 it s Hs). apply (fires_fail st s (snd it) F).
+  Qed.
+End MergeRun.
+
+(* ================================================================== MERGE: the SQL side *)
+Lemma fires_kind st s t :
+  fires st s t = match m_wm st with
+                 | WmUpdateAll | WmFail => true
+                 | WmDoNothing => false
+                 | WmUpdateIf c => is_tt (eval_b (widen st s ++ t) c)
+                 end.
+Proof. unfold fires, wm_act. destruct (m_wm st) as [|c| |]; try reflexivity. destruct (is_tt (eval_b (widen st s ++ t) c)); reflexivity. Qed.
+
+Lemma hits_of_matches st src t : hits st src t = filter (fun s => fires st s t) (matches st src t).
+Proof. unfold hits, matches. rewrite filter_filter. reflexivity. Qed.
+
+Lemma sql_fate_char st src t :
+  sql_fate st src t =
+    match matches st src t with
+    | [] => if nsdel st t then FDelete else FKeep
+    | _ :: _ => match m_wm st with
+                | WmFail => FFailed
+                | _ => match hits st src t with [] => FKeep | [s] => FUpdate s | _ => FAmbiguous end
+                end
+    end.
+Proof.
+  unfold sql_fate. rewrite hits_of_matches. fold (matches st src t).
+  destruct (matches st src t) as [|m0 ms] eqn:M.
+  - unfold nsdel. destruct (m_ns st); reflexivity.
+  - rewrite (filter_ext _ _ (fun s => fires_kind st s t)).
+    destruct (m_wm st) as [|c| |] eqn:W.
+    + rewrite filter_all_true by reflexivity. destruct ms; reflexivity.
+    + reflexivity.
+    + rewrite filter_all_false by reflexivity. reflexivity.
+    + reflexivity.
+Qed.
+
+Lemma hits_nil_of_matches_nil st src t : matches st src t = [] -> hits st src t = [].
+Proof. intro M. rewrite hits_of_matches, M. reflexivity. Qed.
+
+Lemma fail_hits st src t : m_wm st = WmFail -> hits st src t = matches st src t.
+Proof.
+  intro F. rewrite hits_of_matches. apply filter_all_true. intros s _. rewrite fires_kind, F. reflexivity.
+Qed.
+
+(* ================================================================== MERGE: identities *)
+Lemma updates_ids st src (l : itable) a : In a (map fst (updates st l src)) -> In a (map fst l).
+Proof.
+  unfold updates. induction l as [|it l IH]; cbn [flat_map map]; [auto|].
+  rewrite map_app, in_app_iff, map_map. cbn [fst]. intros [H|H].
+  - apply in_map_iff in H as [s [<- _]]. left. reflexivity.
+  - right. apply IH. exact H.
+Qed.
+
+Lemma mem_const_ids a b (H : list row) :
+  mem_addr a (map fst (map (fun s => (b, s)) H)) = addr_eqb a b && negb (is_nil H).
+Proof.
+  induction H as [|s H IH]; cbn [map is_nil negb]; [rewrite andb_false_r; reflexivity|].
+  unfold mem_addr in *. cbn [existsb fst]. rewrite andb_true_r. destruct (addr_eqb a b); [reflexivity|].
+  cbn [orb]. rewrite IH. reflexivity.
+Qed.
+
+Lemma addr_eqb_refl a : addr_eqb a a = true.
+Proof. apply addr_eqb_eq. reflexivity. Qed.
+
+Lemma addr_eqb_neq a b : a <> b -> addr_eqb a b = false.
+Proof. intro H. destruct (addr_eqb a b) eqn:E; [|reflexivity]. apply addr_eqb_eq in E. contradiction. Qed.
+
+Lemma mem_addr_notin a l : ~ In a l -> mem_addr a l = false.
+Proof. intro H. destruct (mem_addr a l) eqn:E; [|reflexivity]. apply mem_addr_in in E. contradiction. Qed.
+
+Lemma mem_updates st src (l : itable) it : NoDup (map fst l) -> In it l ->
+  mem_addr (fst it) (map fst (updates st l src)) = negb (is_nil (hits st src (snd it))).
+Proof.
+  unfold updates. induction l as [|x l IH]; intros ND Hin; [destruct Hin|].
+  cbn [map] in ND. inversion ND as [|? ? Hx ND']. subst.
+  cbn [flat_map]. rewrite map_app, mem_addr_app, mem_const_ids. destruct Hin as [->|Hin].
+  - rewrite addr_eqb_refl. cbn [andb]. fold (updates st l src).
+    rewrite (mem_addr_notin (fst it) (map fst (updates st l src))); [apply orb_false_r|].
+    intro H. apply Hx. apply (updates_ids st src l _ H).
+  - rewrite addr_eqb_neq; [cbn [andb orb]; apply IH; assumption|].
+    intro E. apply Hx. rewrite <- E. apply in_map. exact Hin.
+Qed.
+
+Lemma mem_filtered (p : addr * row -> bool) (l : itable) it : NoDup (map fst l) -> In it l ->
+  mem_addr (fst it) (map fst (filter p l)) = p it.
+Proof.
+  induction l as [|x l IH]; intros ND Hin; [destruct Hin|].
+  cbn [map] in ND. inversion ND as [|? ? Hx ND']. subst. cbn [filter]. destruct Hin as [->|Hin].
+  - destruct (p it) eqn:P.
+    + cbn [map]. unfold mem_addr. cbn [existsb]. rewrite addr_eqb_refl. reflexivity.
+    + apply mem_addr_notin. intro H. apply Hx. apply in_map_iff in H as [y [E Hy]]. apply filter_In in Hy as [Hy _].
+      rewrite <- E. apply in_map. exact Hy.
+  - assert (NE : fst it <> fst x) by (intro E; apply Hx; rewrite <- E; apply in_map; exact Hin).
+    destruct (p x); [|apply IH; assumption].
+    cbn [map]. unfold mem_addr. cbn [existsb]. rewrite (addr_eqb_neq _ _ NE). cbn [orb]. apply IH; assumption.
+Qed.
+
+Lemma find_upd_app a l1 l2 :
+  find_upd a (l1 ++ l2) = match find_upd a l1 with Some u => Some u | None => find_upd a l2 end.
+Proof.
+  unfold find_upd. induction l1 as [|x l1 IH]; cbn [app find]; [reflexivity|].
+  destruct (addr_eqb a (fst x)); [reflexivity|exact IH].
+Qed.
+
+Lemma find_upd_const a b (H : list row) :
+  find_upd a (map (fun s => (b, s)) H) = if addr_eqb a b then hd_error H else None.
+Proof.
+  unfold find_upd. induction H as [|s H IH]; cbn [map find hd_error fst snd]; [destruct (addr_eqb a b); reflexivity|].
+  destruct (addr_eqb a b) eqn:E; [reflexivity|]. rewrite IH. reflexivity.
+Qed.
+
+Lemma find_upd_notin a l : ~ In a (map fst l) -> find_upd a l = None.
+Proof.
+  unfold find_upd. induction l as [|x l IH]; cbn [map find]; intro H; [reflexivity|].
+  rewrite addr_eqb_neq; [apply IH; intro; apply H; right; assumption|]. intro E. apply H. left. symmetry. exact E.
+Qed.
+
+Lemma find_updates st src (l : itable) it : NoDup (map fst l) -> In it l ->
+  find_upd (fst it) (updates st l src) = hd_error (hits st src (snd it)).
+Proof.
+  unfold updates. induction l as [|x l IH]; intros ND Hin; [destruct Hin|].
+  cbn [map] in ND. inversion ND as [|? ? Hx ND']. subst.
+  cbn [flat_map]. rewrite find_upd_app, find_upd_const. destruct Hin as [->|Hin].
+  - rewrite addr_eqb_refl. destruct (hits st src (snd it)) as [|s ss] eqn:H; cbn [hd_error]; [|reflexivity].
+    fold (updates st l src). apply find_upd_notin. intro H1. apply Hx. apply (updates_ids st src l _ H1).
+  - rewrite addr_eqb_neq; [apply IH; assumption|]. intro E. apply Hx. rewrite <- E. apply in_map. exact Hin.
+Qed.
+
+Lemma dupfree_updates st src (l : itable) : forall seen,
+  NoDup (map fst l) -> (forall it, In it l -> ~ In (fst it) seen) ->
+  dupfree seen (map fst (updates st l src)) = negb (existsb (fun it => Nat.leb 2 (length (hits st src (snd it)))) l).
+Proof.
+  unfold updates. induction l as [|x l IH]; intros seen ND F; [reflexivity|].
+  cbn [map] in ND. inversion ND as [|? ? Hx ND']. subst.
+  cbn [flat_map existsb]. rewrite map_app, map_map. cbn [fst].
+  assert (Fx : mem_addr (fst x) seen = false) by (apply mem_addr_notin; apply F; left; reflexivity).
+  assert (IH' : forall seen', (forall it, In it l -> ~ In (fst it) seen') ->
+      dupfree seen' (map fst (flat_map (fun it => map (fun s => (fst it, s)) (hits st src (snd it))) l))
+      = negb (existsb (fun it => Nat.leb 2 (length (hits st src (snd it)))) l)) by (intros; apply IH; assumption).
+  destruct (hits st src (snd x)) as [|s [|s' ss]]; cbn [map app dupfree length Nat.leb orb].
+  - apply IH'. intros it Hit. apply F. right. exact Hit.
+  - rewrite Fx. cbn [negb andb]. apply IH'. intros it Hit [E|Hs].
+    + apply Hx. rewrite E. apply in_map. exact Hit.
+    + apply (F it (or_intror Hit) Hs).
+  - rewrite Fx. cbn [negb andb]. unfold mem_addr at 1. cbn [existsb]. rewrite addr_eqb_refl. reflexivity.
+Qed.
+
+(* ================================================================== MERGE: schema helpers *)
+Lemma index_of_in k l j : In k l -> index_of k l j <> None.
+Proof.
+  revert j; induction l as [|x l IH]; intros j H; [destruct H|]. cbn [index_of].
+  destruct (Nat.eqb x k) eqn:E; [discriminate|]. apply IH. destruct H as [H|H]; [|exact H].
+  apply Nat.eqb_neq in E. contradiction.
+Qed.
+
+Lemma full_schema_eq st : full_schema st = true -> m_scols st = seq 0 (m_ncols st).
+Proof. unfold full_schema. intro H. apply (list_eqb_eq Nat.eqb); [|exact H]. intros x y. apply Nat.eqb_eq. Qed.
+
+Lemma upd_row_full st s t : full_schema st = true -> upd_row st s t = widen st s.
+Proof.
+  intro F. unfold upd_row, widen. apply map_ext_in. intros k Hk. unfold src_get.
+  destruct (index_of k (m_scols st) 0) eqn:E; [reflexivity|].
+  exfalso. apply (index_of_in k (m_scols st) 0); [|exact E]. rewrite (full_schema_eq st F). exact Hk.
+Qed.
+
+(* ================================================================== MERGE = SQL MERGE *)
+Definition mres_equiv (a b : mresult + merr) : Prop :=
+  match a, b with
+  | inl r1, inl r2 => Permutation (r_rows r1) (r_rows r2) /\ r_stats r1 = r_stats r2
+  | inr e1, inr e2 => e1 = e2
+  | _, _ => False
+  end.
+
+Lemma flat_map_map {A B C} (f : B -> list C) (g : A -> B) (l : list A) :
+  flat_map f (map g l) = flat_map (fun x => f (g x)) l.
+Proof. induction l as [|x l IH]; cbn [map flat_map]; [reflexivity|]. rewrite IH. reflexivity. Qed.
+
+Lemma map_flat_map {A B C} (f : B -> C) (g : A -> list B) (l : list A) :
+  map f (flat_map g l) = flat_map (fun x => map f (g x)) l.
+Proof. induction l as [|x l IH]; cbn [flat_map map]; [reflexivity|]. rewrite map_app, IH. reflexivity. Qed.
+
+Lemma count_pointwise {A} (f : A -> nat) (p : A -> bool) (l : list A) :
+  (forall x, In x l -> f x = if p x then 1%nat else 0%nat) ->
+  fold_right (fun x acc => f x + acc)%nat O l = length (filter p l).
+Proof.
+  induction l as [|x l IH]; cbn [fold_right filter length]; intro H; [reflexivity|].
+  rewrite (H x (or_introl eq_refl)), IH by (intros; apply H; right; assumption).
+  destruct (p x); reflexivity.
+Qed.
+
+Lemma existsb_all_false {A} (p : A -> bool) (l : list A) : (forall x, In x l -> p x = false) -> existsb p l = false.
+Proof.
+  induction l as [|x l IH]; cbn [existsb]; intro H; [reflexivity|].
+  rewrite (H x (or_introl eq_refl)). apply IH. intros; apply H; right; assumption.
+Qed.
+
+Section MergeFinal.
+  Variable st : msettings.
+  Variable tgt : itable.
+  Variable src : list row.
+  Hypothesis Hon : m_on st <> [].
+  Hypothesis Hsingle : join_null_eq st = true -> exists k, m_on st = [k].
+  Hypothesis Hsup : supported st = true.
+  Hypothesis K1 : Known_C12_null_key_source_rows_skipped st src = false.
+  Hypothesis K2 : Known_C12_null_key_target_rows_kept st (map snd tgt) = false.
+  Hypothesis K3 : Known_C12_fail_off_fast_path st = false.
+  Hypothesis K4 : Known_C12_update_if_partial_schema_panics st = false.
+  Hypothesis ND : NoDup (map fst tgt).
+
+  (* no target row is hit twice, and under Fail no target row is hit at all *)
+  Definition ok_hits : Prop :=
+    forall it, In it tgt -> (length (hits st src (snd it)) <= 1)%nat /\ (m_wm st = WmFail -> hits st src (snd it) = []).
+
+  Lemma fate_ok it : ok_hits -> In it tgt ->
+    sql_fate st src (snd it) =
+      match matches st src (snd it) with
+      | [] => if nsdel st (snd it) then FDelete else FKeep
+      | _ :: _ => match hits st src (snd it) with [] => FKeep | s :: _ => FUpdate s end
+      end.
+  Proof.
+    intros OK Hit. destruct (OK it Hit) as [L Fl]. rewrite sql_fate_char.
+    destruct (matches st src (snd it)) as [|m0 ms] eqn:M; [reflexivity|].
+    destruct (m_wm st) eqn:W;
+      try (destruct (hits st src (snd it)) as [|s [|s' ss]]; [reflexivity|reflexivity|cbn [length] in L; lia]).
+    specialize (Fl eq_refl). rewrite (fail_hits st src (snd it) W), M in Fl. discriminate.
+  Qed.
+
+  Lemma del_of_final a :
+    mem_addr a (s_del (final_state st tgt src))
+    = mem_addr a (map fst (dropped st tgt src)) || mem_addr a (map fst (updates st tgt src)).
+  Proof.
+    unfold final_state, st_del, st_ins, st_upd, mstate0. cbn [s_del]. rewrite app_nil_r, mem_addr_app, !mem_addr_rev. reflexivity.
+  Qed.
+
+  Lemma kept_pointwise it : ok_hits -> In it tgt ->
+    (if negb (mem_addr (fst it) (s_del (final_state st tgt src))) then [snd it] else [])
+      ++ map (fun s => upd_row st s (snd it)) (hits st src (snd it))
+    = fate_rows st (snd it) (sql_fate st src (snd it)).
+  Proof.
+    intros OK Hit. rewrite del_of_final. unfold dropped. rewrite (mem_filtered _ tgt it ND Hit), (mem_updates st src tgt it ND Hit).
+    rewrite (fate_ok it OK Hit). destruct (OK it Hit) as [L _].
+    destruct (matches st src (snd it)) as [|m0 ms] eqn:M.
+    - rewrite (hits_nil_of_matches_nil st src (snd it) M). cbn [is_nil negb andb orb map app].
+      rewrite orb_false_r. destruct (nsdel st (snd it)); reflexivity.
+    - cbn [is_nil andb orb]. destruct (hits st src (snd it)) as [|s [|s' ss]]; cbn [is_nil negb map app fate_rows]; try reflexivity.
+      cbn [length] in L. lia.
+  Qed.
+
+  Lemma spec_no_error : ok_hits ->
+    existsb is_failed (map (sql_fate st src) (map snd tgt)) = false
+    /\ existsb is_amb (map (sql_fate st src) (map snd tgt)) = false.
+  Proof.
+    intro OK. rewrite map_map, !existsb_map. split; apply existsb_all_false; intros it Hit; rewrite (fate_ok it OK Hit);
+      destruct (matches st src (snd it)); try (destruct (nsdel st (snd it)); reflexivity);
+      destruct (hits st src (snd it)); reflexivity.
+  Qed.
+
+  Lemma stats_ok : ok_hits ->
+    r_stats_of (final_state st tgt src)
+    = (N.of_nat (length (sql_inserted st (map snd tgt) src)),
+       N.of_nat (length (filter is_upd (map (sql_fate st src) (map snd tgt)))),
+       N.of_nat (length (filter is_del (map (sql_fate st src) (map snd tgt))))).
+  Proof.
+    intro OK. unfold r_stats_of, final_state, st_del, st_ins, st_upd, mstate0. cbn [s_nins s_nupd s_ndel].
+    rewrite !N.add_0_l. f_equal; [f_equal|].
+    - reflexivity.
+    - f_equal. unfold updates. rewrite flat_map_length_sum, map_map, filter_map_comm, map_length.
+      apply count_pointwise. intros it Hit. rewrite map_length, (fate_ok it OK Hit). destruct (OK it Hit) as [L _].
+      destruct (matches st src (snd it)) eqn:M.
+      + rewrite (hits_nil_of_matches_nil st src (snd it) M). destruct (nsdel st (snd it)); reflexivity.
+      + destruct (hits st src (snd it)) as [|s [|s' ss]]; try reflexivity. cbn [length] in L. lia.
+    - f_equal. rewrite map_length. unfold dropped. rewrite map_map, filter_map_comm, map_length. f_equal.
+      apply filter_ext_in'. intros it Hit. rewrite (fate_ok it OK Hit).
+      destruct (matches st src (snd it)); cbn [is_nil andb]; [destruct (nsdel st (snd it)); reflexivity|].
+      destruct (hits st src (snd it)); reflexivity.
+  Qed.
+
+  Lemma ns_keep_if_partial : full_schema st = false -> forall t, nsdel st t = false.
+  Proof.
+    intros F t. unfold supported in Hsup. rewrite F in Hsup. cbn [orb] in Hsup. unfold nsdel. destruct (m_ns st); [reflexivity|discriminate|discriminate].
+  Qed.
+
+  (* the table that a_merge builds from the final state *)
+  Lemma result_ok : ok_hits ->
+    mres_equiv (result_of st tgt (final_state st tgt src)) (sql_merge st (map snd tgt) src).
+  Proof.
+    intro OK. unfold sql_merge. destruct (spec_no_error OK) as [NF NA]. rewrite NF, NA.
+    unfold result_of. destruct (full_schema st) eqn:FS; cbn [mres_equiv r_rows r_stats]; (split; [|apply (stats_ok OK)]).
+    - (* RewriteRows *)
+      rewrite app_assoc. apply Permutation_app; [|apply Permutation_refl].
+      unfold final_state at 2, st_del, st_ins, st_upd, mstate0. cbn [s_upd app].
+      rewrite flat_map_map.
+      rewrite (map_as_flat_map snd), (filter_as_flat_map _ tgt), flat_map_concat_map, <- flat_map_concat_map.
+      assert (E1 : flat_map (fun x => [snd x]) (flat_map (fun x => if negb (mem_addr (fst x) (s_del (final_state st tgt src))) then [x] else []) tgt)
+                   = flat_map (fun it => if negb (mem_addr (fst it) (s_del (final_state st tgt src))) then [snd it] else []) tgt).
+      { generalize (s_del (final_state st tgt src)). intro d. induction tgt as [|x l IH]; cbn [flat_map]; [reflexivity|].
+        rewrite flat_map_app, IH. destruct (negb (mem_addr (fst x) d)); reflexivity. }
+      rewrite E1. unfold updates. rewrite map_flat_map.
+      eapply Permutation_trans; [apply flat_map_app_pointwise|].
+      erewrite flat_map_ext_in; [apply Permutation_refl|].
+      intros it Hit. cbn beta. rewrite <- (kept_pointwise it OK Hit). f_equal.
+      rewrite map_map. cbn [snd]. apply map_ext. intro s. symmetry. apply upd_row_full. exact FS.
+    - (* RewriteColumns *)
+      apply Permutation_app; [|apply Permutation_refl].
+      unfold final_state, st_del, st_ins, st_upd, mstate0. cbn [s_upd app].
+      rewrite flat_map_map, map_as_flat_map.
+      erewrite flat_map_ext_in; [apply Permutation_refl|].
+      intros it Hit. cbn beta. rewrite (find_updates st src tgt it ND Hit), (fate_ok it OK Hit). destruct (OK it Hit) as [L _].
+      rewrite (ns_keep_if_partial FS).
+      destruct (matches st src (snd it)) eqn:M.
+      + rewrite (hits_nil_of_matches_nil st src (snd it) M). reflexivity.
+      + destruct (hits st src (snd it)) as [|s [|s' ss]]; reflexivity.
+  Qed.
+End MergeFinal.
